@@ -77,7 +77,7 @@ def run(tier, v):
     thorough = tier == "thorough"
     states = trans = 0
     # 1. design level + case export
-    mod = 3 if thorough else 7
+    mod = 3 if thorough else 9
     r = vlib.tlc("ScenarioMC", "Scenario_thorough.cfg" if thorough else "Scenario_exh.cfg",
                  env={"VERIF_SEED": vlib.seed(), "VERIF_MOD": mod}, workers=8, heap="6g", deadlock=False, timeout=2400)
     vlib.tlc_must_pass(r, "Scenario_exh")
